@@ -105,6 +105,7 @@ class Harness:
         self.diverged = None
         self.max_depth = 0
         self.last_comp = None
+        self.probes = {}
 
     # ------------------------------------------------------------ helpers
     def obs2d(self, o):
@@ -218,6 +219,32 @@ class Harness:
            and rec.post[rec.act.target][0] is True:
             self.last_comp = rec.act.target
         self.max_depth = max(self.max_depth, sum(1 for v in self.mst.values() if v[0]))
+
+    # ------------------------------------------------------------ probes (C13)
+    def probe_actions(self, mst):
+        """a handful of actions whose outcome depends on the attacker's footholds in state mst:
+        remote actions against non-public hosts and the single-gate near-misses"""
+        picks = []
+        byc = self.classify(mst)
+        for c in ("subnetfw", "hostfw", "pivot", "discovery", "access"):
+            if c in byc:
+                picks.append(byc[c][0])
+        for i, a in enumerate(self.acts):
+            if len(picks) >= 6:
+                break
+            if a.kind in ("exploit", "service_scan") and not self.spec.public(a.target[0]) and i not in picks:
+                picks.append(i)
+        return [self.acts[i] for i in picks[:6]]
+
+    def probe_signature(self, state, mst):
+        from .oracles import canon_info
+        sig = []
+        for a in self.probe_actions(mst):
+            side, seed, draw = self.pick_seed(a, "lo", 0)
+            np.random.seed(seed)
+            ns, obs, rew, done, info = self.env.generative_step(state, self.real_action(a))
+            sig.append((repr(a), ns.tensor.tobytes(), float(rew), bool(done), repr(canon_info(info))))
+        return sig
 
     def reset(self):
         obs, info = self.env.reset()
@@ -412,8 +439,20 @@ def run_history(h, ops, on_rec, on_reset=None, both_sides=True, do_gen=True):
                 act = h.choose(("n", (op[2] // 3) % 9, op[2] // 27), mst)
             else:
                 act = h.choose(("f", op[2] // 3), mst)
+            probing = getattr(h, "probe_saved", False)
+            if probing:
+                key = id(state)
+                if key not in h.probes:
+                    h.probes[key] = h.probe_signature(state, mst)
             rec = h.exec_gen(state, mst, act, op[3], op[4], opname="g")
             on_rec(h, rec, None)
+            if probing:
+                now = h.probe_signature(state, mst)
+                for (a0, t0, r0, d0, i0), (a1, t1, r1, d1, i1) in zip(h.probes[key], now):
+                    if (t0, r0, d0, i0) != (t1, r1, d1, i1):
+                        raise Failure("C13:state-object-changed",
+                                      f"generative_step({a0}) on one and the same earlier state object gives a different result after "
+                                      f"generative_step({rec.act}) was called on that object (its tensor is unchanged: {rec.purity['arg_unchanged']})")
             continue
         act = h.choose(op)
         side, ks = (op[-2], op[-1]) if k != "o" else ("lo", 0)
